@@ -35,9 +35,10 @@ def run(prop, tier):
         sc += [(m, s, h) for m in (20, 33, 128) for s in (21, 77) for h in (5, 50, 150)]
     vec["irq_timers"] = dict(cases=[dict(mp=m, sp=s, handler_nops=h, steps=3000 if tier == "quick" else 12000) for m, s, h in sc])
     vec["irq_reti"] = dict(all=True)
-    res = RS.run(vec, ["irq", "irq_timers", "irq_reti"], timeout=3000)
+    vec["split"] = dict(totals=[12, 40])
+    res = RS.run(vec, ["irq", "irq_timers", "irq_reti", "split"], timeout=3000)
     keep = (v.obligations, v.discharged)
-    v.absorb(RS.reports(res, vec, ["irq", "irq_timers", "irq_reti"]), known, expect_obligations=False)
+    v.absorb(RS.reports(res, vec, ["irq", "irq_timers", "irq_reti", "split"]), known, expect_obligations=False)
     v.obligations, v.discharged = keep
     v.bounded = [RS.summarize(res, "irq", "one CoreRuntime::step over a NOP on the compiled crate for IMR in %s x all 256 ISR values x pending flag x in-interrupt flag x running/halted: taken only if master enable and "
                                           "mask&status allow it, stack moves by 5 or 0, frame layout PC/F/IMR, master enable cleared, continues at the vector, bookkeeping flags; otherwise stack, IMR untouched and PC after the NOP, "
@@ -46,6 +47,8 @@ def run(prop, tier):
                                                      "stepped one instruction at a time; a handler for a source is entered only after an unserved expiry of that source, and every expiry is served before the run and a drain phase end"),
                  RS.summarize(res, "irq_reti", "handler round trip on the compiled crate (NOP program, handler = RETI, timers off) for every non-empty set of pending sources among bits 0-3 x every source mask x master enable on/off: "
                                                    "handler entered iff deliverable; after the matching RETI at most one status bit was acknowledged and it belongs to an enabled source; masked pending requests are still pending"),
+                 RS.summarize(res, "split", "HALT / OFF executed in the middle of a host batch step(n) with both timers running and unmasked (and four other programs, shared with C07): registers, power state, status "
+                                                "register, timer targets, cycle count and writes after step(n) in one or several calls equal n single steps - a halted or powered-off CPU executes nothing more in that batch"),
                  dict(part="schedule/liveness clauses (interleavings over several steps), OFF state, RETI in the Rust evaluator", bound="not covered", note="not decided: whole-history properties are outside this family")]
     v.samples = [dict(obligation="gate:enabled-and-pending=>delivered", statement="forall IMR,ISR,F,S,pending: pending and IRM and (IMR&ISR&0x7F) != 0 => the step pushes the 5-byte frame and continues at the vector"),
                  dict(obligation="halt:wakes-iff-status-pending", statement="halted' == (ISR == 0) after one step of a halted CPU")]
